@@ -87,7 +87,7 @@ static void body(Env& env, const std::string& stage, int n, int L, int K, int ma
         c.evals(); if (nontriv && E.size() >= 1) c.nontrivial();
         bool pruned = false; for (int q = 0; q < out; q++) for (int r = 0; r < out; r++) if (R0[q][r] && !S[q][r]) pruned = true; c.count(pruned ? "relation_pruned" : "relation_kept");
         try { auto l = mk(); BinaryRelation res = l->computeSimulation(part, rel, (size_t)out);
-          bool bad = (int)res.size() != out; Mat G(out, std::vector<bool>(out)); if (!bad) for (int q = 0; q < out; q++) for (int r = 0; r < out; r++) { G[q][r] = res.get(q, r); if (G[q][r] != S[q][r]) bad = true; }
+          bool bad = (int)res.size() != out; Mat G(out, std::vector<bool>(out)); if (!bad) for (int q = 0; q < out; q++) for (int r = 0; r < out; r++) { G[q][r] = res.get(q, r); if (G[q][r] != S[q][r]) bad = true; } if ((int)res.size() == out) verif::obs(mat(G, out));
           if (bad) { bool big = false, small = false; if ((int)res.size() == out) for (int q = 0; q < out; q++) for (int r = 0; r < out; r++) { if (G[q][r] && !S[q][r]) big = true; if (!G[q][r] && S[q][r]) small = true; }
             c.viol("computeSimulation(partition,relation,size)", (int)res.size() != out ? "wrong_result_size" : big && small ? "relation_differs_both_ways" : big ? "relation_too_big" : "relation_too_small", feats2,
                    show(n, E, &cb, out) + " rowSize=" + std::to_string(row) + " expected=" + mat(S, out) + " got=" + ((int)res.size() == out ? mat(G, out) : "size " + std::to_string(res.size())), w); }
